@@ -8,6 +8,7 @@ package main
 
 import (
 	"fmt"
+	"os"
 	"path/filepath"
 	"strings"
 	"sync"
@@ -68,6 +69,13 @@ func RunCases(prelude string, assumes []*Term, goals []CaseGoal, insts []CaseIns
 			FreeSyms(x, fs, map[*Term]bool{})
 			if len(fs) > 0 {
 				res.Skipped[gi] = true
+				if os.Getenv("GOVC_DEBUG") != "" {
+					var ns []string
+					for f := range fs {
+						ns = append(ns, f.Name)
+					}
+					fmt.Fprintf(os.Stderr, "skipped goal %s: free symbols %v\n", g.Name, ns)
+				}
 			}
 		}
 		termRelease()
